@@ -54,6 +54,40 @@ theorem C09_size_reorder (hw : h.WF) (hr : Reorder h h') :
     (edgeDict (view h') size).Perm (edgeDict (view h) size) :=
   edgeDict_perm (vperm hw hr) (size_perm (vperm hw hr))
 
+/-! ### the list of edge sizes that occur (`unique_edge_sizes`; added after the mutation sweep: with `sorted()` dropped the
+    real function depends on insertion order from edge size 9 on) -/
+
+theorem C09_unique_edge_sizes_rename (hπ : Injective π) (hσ : Injective σ) (h : Net) :
+    uniqueEdgeSizes (view (rename π σ h)) = uniqueEdgeSizes (view h) := by
+  have hr := view_rename hπ hσ h
+  simp only [uniqueEdgeSizes, hr.nodes, List.length_map, countSize_ren hr]
+
+theorem C09_unique_edge_sizes_reorder (hw : h.WF) (hr : Reorder h h') :
+    uniqueEdgeSizes (view h') = uniqueEdgeSizes (view h) := by
+  have hp := vperm hw hr
+  simp only [uniqueEdgeSizes, hp.nodes.length_eq, countSize_perm hp]
+
+/-- what the list is (`sorted(set(sizes))`): strictly increasing, and a size is listed iff some edge has it -/
+theorem C09_unique_edge_sizes_spec (hw : h.WF) :
+    (uniqueEdgeSizes (view h)).Pairwise (· < ·) ∧
+    ∀ s, s ∈ uniqueEdgeSizes (view h) ↔ ∃ e ∈ h.edgeIds, size (view h) e = s := by
+  constructor
+  · exact List.Pairwise.filter _ (List.pairwise_lt_range)
+  · intro s
+    show s ∈ uniqueEdgeSizes (view h) ↔ ∃ e ∈ (view h).eids, size (view h) e = s
+    simp only [uniqueEdgeSizes, List.mem_filter, List.mem_range, decide_eq_true_eq, countSize, List.length_pos_iff,
+      ne_eq]
+    constructor
+    · rintro ⟨_, hne⟩
+      obtain ⟨e, he⟩ := List.exists_mem_of_ne_nil _ hne
+      simp only [List.mem_filter, beq_iff_eq] at he
+      exact ⟨e, he.1, he.2⟩
+    · rintro ⟨e, he, hs⟩
+      refine ⟨by have := size_le_nodes hw e; omega, ?_⟩
+      intro hnil
+      have : e ∈ (view h).eids.filter (fun e => size (view h) e == s) := by simp [List.mem_filter, he, hs]
+      simp [hnil] at this
+
 /-! ### neighbours and average neighbour degree -/
 
 theorem C09_neighbors_rename (hπ : Injective π) (hσ : Injective σ) (h : Net) :
@@ -295,6 +329,7 @@ example : nodeDict (view demo) degree = [(.int 1, 2), (.int 2, 1), (.int 3, 2), 
 example : nodeDict (view (rename id swap01 demo)) degree = nodeDict (view demo) degree := by decide
 example : edgeDict (view (rename id swap01 demo)) size = [(.int 0, 3), (.int 1, 2), (.int 2, 3)] := by decide
 example : numComponents (view demo) = 1 := by decide
+example : uniqueEdgeSizes (view demo) = [2, 3] ∧ uniqueEdgeSizes (view (reverseAll demo)) = [2, 3] := by decide
 example : maximal (view (reverseAll demo)) false = [.int 2, .int 0, .int 1] := by decide
 example : triCount (view demo) (.int 1) = 6 := by decide
 /-- the F7 witness: with members looked up by ID the value at node 1 is 1/2 under both labellings -/
